@@ -226,21 +226,33 @@ fn action_flag(a: u8) -> Option<gmsol_store::states::feature::ActionDisabledFlag
 impl<'a> Sim<'a> {
     fn new(cfg: &'a Cfg) -> Self {
         let p = pdas();
-        let mut w = World::new(cfg.start_ts, 1000);
-        let d: Dep = deploy::deploy_store(&mut w);
+        // Base world (programs, store, admin, keeper with the standard roles, timelock roles enabled): a constant,
+        // built once and cloned.
+        static BASE: OnceLock<(World, Dep)> = OnceLock::new();
+        deploy::init_thread();
+        let (mut w, d) = BASE
+            .get_or_init(|| {
+                let mut w = World::new(1_700_000_000, 1000);
+                let d: Dep = deploy::deploy_store(&mut w);
+                for r in &ROLE_NAMES[0..6] {
+                    expect_ok(
+                        "enable tl role",
+                        w.process(store_ix(
+                            gmsol_store::accounts::EnableRole { authority: d.admin, store: d.store },
+                            gmsol_store::instruction::EnableRole { role: r.to_string() },
+                        )),
+                    );
+                }
+                (w, d)
+            })
+            .clone();
+        w.clock.unix_timestamp = cfg.start_ts.max(1_700_000_000);
         let mut m = Model::default();
         for r in deploy::ALL_ROLES {
             m.enabled.insert(r.to_string());
             m.grants.insert((d.keeper, r.to_string()));
         }
         for r in &ROLE_NAMES[0..6] {
-            expect_ok(
-                "enable tl role",
-                w.process(store_ix(
-                    gmsol_store::accounts::EnableRole { authority: d.admin, store: d.store },
-                    gmsol_store::instruction::EnableRole { role: r.to_string() },
-                )),
-            );
             m.enabled.insert(r.to_string());
         }
         let mut principals = vec![];
